@@ -64,11 +64,23 @@ NonOpsDef == { {}, {N} }
 
 Pars == { [proto |-> p, nonop |-> no] : p \in Protos, no \in NonOps }
 
-\* the (honest threshold, quorum) pairs the submission gate is explored for
-HQ == { hq \in Hs \X Qs : hq[1] <= hq[2] }
+\* The submission gate is explored for every (honest threshold h, quorum q,
+\* actual size m of the group that signs).  m is the number of members of the
+\* wallet (inactivity claim: len(groupMembers), wallets created by a DKG with
+\* excluded members have q <= m < N members) resp. of operating members of the
+\* DKG group (tECDSA result).  The thresholds are the NOMINAL ones of the
+\* group parameters whatever m is: the chain requires them regardless of the
+\* wallet's size (EcdsaInactivity.verifyClaim: signaturesCount >=
+\* groupThreshold; EcdsaDkgValidator: signaturesCount >= groupThreshold+...,
+\* both constants).  The beacon gate reads the chain config only (m = N).
+HQM == { t \in Hs \X Qs \X (1..N) :
+           /\ t[1] <= t[2] /\ t[2] <= t[3]
+           /\ (Proto = "beacon" => t[3] = N) }
+HQ == HQM
 
 Rule == IF Proto = "beacon" THEN "dropAll" ELSE "firstWins"
 
+\* NOTE: no dependence on the actual group size m
 ThresholdP(proto, h, q) ==
     CASE proto = "beacon"     -> h + (N - h) \div 2
       [] proto = "tecdsa"     -> q
@@ -152,8 +164,10 @@ Verify ==
 Submit ==
     /\ phase = "verified"
     /\ phase' = "done"
-    /\ outcome' = [hq \in HQ |-> IF Cardinality(supporters) >= ThresholdP(Proto, hq[1], hq[2])
-                                     THEN "submitted" ELSE "refused"]
+    /\ outcome' = [hq \in HQ |->
+                     IF Cardinality(supporters) > hq[3] THEN "none"  \* more supporters than members: n/a
+                     ELSE IF Cardinality(supporters) >= ThresholdP(Proto, hq[1], hq[2])
+                          THEN "submitted" ELSE "refused"]
     /\ UNCHANGED <<par, nrecv, accepted, supporters>>
 
 DoReceive == \E m \in Msgs : Receive(m)
@@ -192,7 +206,8 @@ DuplicatesDropped ==
     (Rule = "dropAll" /\ phase # "signing") =>
         \A s \in Senders : Cardinality(From(accepted, s)) > 1 => s \notin supporters
 
-\* C13: submission only with a set that reaches the threshold.
+\* C13: submission only with a set that reaches the (nominal) threshold, for
+\* every actual group size m.
 SubmitGate ==
     phase = "done" => \A hq \in HQ : outcome[hq] = "submitted" =>
                           Cardinality(supporters) >= ThresholdP(Proto, hq[1], hq[2])
